@@ -185,6 +185,7 @@ def pm(offset, magic, attr, ts, key, value):
 
 class ProduceApi(Api):
     name = "produce"
+    wrapper_expect = {}          # id(wrapper Message) -> (magic, attributes, timestamp); the Message is kept alive by the args
 
     def gen_messages(self, g):
         """list of (Message, expected-inner or None); built under a Recorder so timestamps are scripted"""
@@ -205,6 +206,9 @@ class ProduceApi(Api):
             if cdc == 0:
                 out = [(m, None) for m in ms]
             else:
+                # independent expectation for the wrapper too: attributes = the codec, key null, format = magic,
+                # timestamp = the clock reading after the inner ones; only its compressed value is taken as found
+                self.wrapper_expect[id(ms[0])] = (magic, cdc, (base + len(flat)) if magic == 1 else None)
                 out = [(ms[0], inner)]
             self.last_kind = "created_codec%d_magic%d" % (cdc, magic)
         else:               # hand-made Message objects, as a direct user of send_produce_request may pass
@@ -263,7 +267,8 @@ class ProduceApi(Api):
                         k += 1
                     top = pm(0, m.magic, m.attributes, ts if m.magic == 1 else None, m.key, m.value)
                     if id(m) in a["inner_of"]:
-                        ms.append({"wrapper": True, "msg": top, "inner": a["inner_of"][id(m)]})
+                        wm, wa, wt = self.wrapper_expect[id(m)]
+                        ms.append({"wrapper": True, "msg": pm(0, wm, wa, wt, None, m.value), "inner": a["inner_of"][id(m)]})
                     elif m.attributes & 7:
                         return None            # hand-made "compressed" message with arbitrary bytes: outside wf
                     else:
@@ -1128,6 +1133,52 @@ def all_event_histories(depth):
     return out
 
 
+# ------------------------------------------------------------------ absent (None) strings at the public entry points
+def entry_points_with_none():
+    """The codec emits length -1 for a None topic / group (not a request of the grammar; Example
+    null_string_not_grammatical).  Through the public entry points no such request may go out: every call must fail
+    (TypeError from _coerce_topic / _coerce_consumer_group) without handing a frame to a broker client.
+    Returns [(entry point, outcome, frames emitted)]."""
+    from twisted.internet import defer
+    from afkak.common import FetchRequest, OffsetCommitRequest, OffsetFetchRequest, OffsetRequest, ProduceRequest
+    from afkak.consumer import Consumer
+    from afkak.producer import Producer
+    out = []
+
+    def attempt(name, fn):
+        sc = ScriptedClient(False)
+        del sc.client._send_broker_aware_request
+        frames = []
+
+        def make_request(broker, correlationId, request, expectResponse=True, min_timeout=None):
+            frames.append(bytes(request))
+            return defer.Deferred()
+        sc.client._make_request_to_broker = make_request
+        sc.client._get_brokerclient = lambda node_id: object()
+        give_topic(sc.client, "t")
+        try:
+            r = fn(sc.client)
+            if isinstance(r, defer.Deferred):
+                st, v = fired(r)
+                outcome = "pending" if st == 0 else "returned" if st == 1 else "failed:" + type(v.value).__name__
+            else:
+                outcome = "returned"
+        except Exception as e:  # noqa
+            outcome = "raised:" + type(e).__name__
+        out.append((name, outcome, frames + [e[1] for e in sc.unaware]))
+    attempt("load_metadata_for_topics(None)", lambda c: c.load_metadata_for_topics(None))
+    attempt("load_coordinator_for_group(None)", lambda c: c.load_coordinator_for_group(None))
+    attempt("send_produce_request(topic None)", lambda c: c.send_produce_request([ProduceRequest(None, 0, [])]))
+    attempt("send_fetch_request(topic None)", lambda c: c.send_fetch_request([FetchRequest(None, 0, 0, 1)]))
+    attempt("send_offset_request(topic None)", lambda c: c.send_offset_request([OffsetRequest(None, 0, -1, 1)]))
+    attempt("send_offset_fetch_request(group None)", lambda c: c.send_offset_fetch_request(None, [OffsetFetchRequest("t", 0)]))
+    attempt("send_offset_commit_request(group None)",
+            lambda c: c.send_offset_commit_request(None, [OffsetCommitRequest("t", 0, 1, -1, None)]))
+    attempt("Producer.send_messages(topic None)", lambda c: Producer(c).send_messages(None, msgs=[b"x"]))
+    attempt("Consumer(topic None)", lambda c: Consumer(c, None, 0, lambda *a: None))
+    return out
+
+
 # ------------------------------------------------------------------ finding F-C04-4: overlapping lookups
 RACE_TABLE = [(0, 0, 7), (1, 0, 10), (18, 0, 2)]
 
@@ -1187,6 +1238,9 @@ def probe_overlap_race(x_outcome=(1,)):
 # ------------------------------------------------------------------ the check
 def run(ck):
     vlib.import_repo()
+    import logging
+    logging.getLogger("afkak").addHandler(logging.NullHandler())     # the drivers provoke failures on purpose
+    logging.getLogger("afkak").propagate = False
     ck.build([MODEL])
     ck.props()
     rnd = random.Random(ck.seed)
@@ -1220,7 +1274,12 @@ def run(ck):
             if want is None:
                 ck.hist("outside_hypotheses_%s_%s" % (api.name, "parsed" if req else "rejected"))
                 continue
-            ck.hist("conforming_" + api.name)
+            ck.hist("conforming_" + api.name + ("_v%d" % want["version"] if api.name in ("produce", "fetch") else ""))
+            if "payloads" in a and len({(p.topic, p.partition) for p in a["payloads"]}) < len(a["payloads"]):
+                ck.hist("payload_lists_with_duplicate_keys")
+            if api.name == "produce":
+                for mg in sorted(set(KS.magics(req))) if req else []:
+                    ck.hist("conforming_produce_v%d_format%d" % (want["version"], mg))
             if req != want:
                 ck.violation({"kind": "request does not parse to the supplied fields under the independent Kafka grammar",
                               "api": api.name, "theorem": THEOREM_OF[api.name], "case": api.case(a),
@@ -1431,6 +1490,50 @@ def run(ck):
         i = diffs[0]
         ck.violation({"kind": "the two independent grammar parsers disagree on a captured frame (verification machinery)",
                       "case": sp_cases[i][:300], "python": sp_impl[i][:300], "coq": mo[i][:300]}, no_input=True)
+
+    # ---- 4c. the request stream as a broker receives it: REAL KafkaClient + _KafkaBrokerClient + protocol + Producer +
+    #          Consumer + ConsumerGroup over simnet, simulated broker built from the independent grammar only
+    from props import C04_stream
+    sp_cases, sp_impl = [], []
+    for k in range(40 * scale):
+        api_mode, discovery = [("table", True), ("error35", True), ("close", True), ("table", False)][k % 4]
+        codec_id = (k // 4) % 2
+        frames, problems, info = C04_stream.run_stream(rnd, nice, discovery, api_mode, codec_id)
+        ck.hist("stream_%s_%s_codec%d" % ("discovery" if discovery else "nodiscovery", api_mode, codec_id))
+        for api, n in info["apis"].items():
+            ck.hist("stream_frames_" + api, n)
+        for body, _req in frames:
+            _r, flat, case = spec_parse(body)
+            sp_cases.append(case)
+            sp_impl.append(flat)
+        if problems:
+            ck.violation({"kind": "request stream received by the simulated broker (real client, broker client, framing, producer, "
+                                  "consumer, group): " + problems[0][:600], "all_problems": [x[:600] for x in problems[:10]],
+                          "config": info, "frames": [list(b) for b, _ in frames][:60], "replay_op": "none"})
+    diffs, mo = ck.correspond(MODEL, MODULE, sp_cases, sp_impl, "grammar parsers Python vs Coq on the byte stream written to the transports (real broker client + framing)",
+                              nontrivial=lambda c, o: o[0] == 1, describe=describe)
+    if diffs:
+        i = diffs[0]
+        ck.violation({"kind": "the two independent grammar parsers disagree on a frame of the stream (verification machinery)",
+                      "case": sp_cases[i][:300], "python": sp_impl[i][:300], "coq": mo[i][:300]}, no_input=True)
+
+    # ---- 4d. None where the grammar wants a string: outside the theorems' hypotheses ([astr_wf] is false on None);
+    #          through the public entry points it must never produce a frame
+    for name, outcome, frs in entry_points_with_none():
+        ck.hist("entry_point_none_" + outcome.split(":")[0])
+        bad = [fr for fr in frs if KS.parse_request(fr) is None]
+        if bad or outcome in ("returned", "pending") and frs:
+            ck.violation({"kind": "a public entry point given None for a topic/group emitted a request (None is written as length -1: "
+                                  "not a request of the Kafka grammar)", "entry_point": name, "outcome": outcome,
+                          "bytes": list((bad or frs)[0]), "replay_op": "frame"})
+    ck.cov["outside_hypotheses"] = {
+        "null_non_nullable_string": "KafkaCodec.encode_* given None for a STRING field returns bytes with length -1 that both grammar "
+                                    "parsers reject (Example null_string_not_grammatical); counted in the histogram as "
+                                    "outside_hypotheses_*_rejected; the public entry points reject None (entry_point_none_*)",
+        "duplicate_topic_partition": "payload lists repeating a (topic, partition): only the LAST payload is encoded "
+                                     "(C04_group_last_wins, C04_duplicate_keys_injective_refuted); with distinct keys nothing is lost "
+                                     "(C04_group_complete); afkak's own callers never repeat a key (C09_one_payload)",
+        "cases_with_duplicate_keys": ck.cov["histogram"].get("payload_lists_with_duplicate_keys", 0)}
 
     # ---- 5. finding probes: overlapping lookups, the real client and producer
     observed, trace = probe_overlap_race((1,))
